@@ -76,6 +76,10 @@ func (p *prop) Generate(rng *core.Rand, tier string, emit func(string)) {
 	for i := 0; i < nSite/4; i++ {
 		emit(genKbindCase(rgl))
 	}
+	// ---- site-level named matchers used at top level, in nested blocks and inside handle_errors
+	for i := 0; i < nSite/3; i++ {
+		emit(genNmeqCase(rgl))
+	}
 	// ---- named routes and invoke: no directive lost, every invoked route emitted
 	for i := 0; i < nSite/4; i++ {
 		emit(genNrCase(rgl))
